@@ -748,6 +748,397 @@ fn reconstruct_family(ctx: &Ctx, report: &mut Report) -> Result<(), String> {
     Ok(())
 }
 
+// ---------------------------------------------------------------------------------------
+// (C) relay sessions: message sequences from two peers through the real Relayer::received
+
+/// A protocol context that records what the handlers send and whom they ban.
+struct MockNc {
+    sent: std::sync::Mutex<Vec<(ckb_network::PeerIndex, Bytes)>>,
+    banned: std::sync::Mutex<Vec<(ckb_network::PeerIndex, String)>>,
+}
+
+type Task = std::pin::Pin<Box<dyn std::future::Future<Output = ()> + 'static + Send>>;
+
+#[ckb_network::async_trait]
+impl ckb_network::CKBProtocolContext for MockNc {
+    async fn set_notify(&self, _i: std::time::Duration, _t: u64) -> Result<(), ckb_network::Error> {
+        Ok(())
+    }
+    async fn remove_notify(&self, _t: u64) -> Result<(), ckb_network::Error> {
+        Ok(())
+    }
+    async fn async_quick_send_message(&self, p: ckb_network::ProtocolId, peer: ckb_network::PeerIndex, data: Bytes) -> Result<(), ckb_network::Error> {
+        self.send_message(p, peer, data)
+    }
+    async fn async_quick_send_message_to(&self, peer: ckb_network::PeerIndex, data: Bytes) -> Result<(), ckb_network::Error> {
+        self.send_message_to(peer, data)
+    }
+    async fn async_quick_filter_broadcast(&self, _t: ckb_network::TargetSession, _d: Bytes) -> Result<(), ckb_network::Error> {
+        Ok(())
+    }
+    async fn async_future_task(&self, _t: Task, _b: bool) -> Result<(), ckb_network::Error> {
+        Ok(())
+    }
+    async fn async_send_message(&self, p: ckb_network::ProtocolId, peer: ckb_network::PeerIndex, data: Bytes) -> Result<(), ckb_network::Error> {
+        self.send_message(p, peer, data)
+    }
+    async fn async_send_message_to(&self, peer: ckb_network::PeerIndex, data: Bytes) -> Result<(), ckb_network::Error> {
+        self.send_message_to(peer, data)
+    }
+    async fn async_filter_broadcast(&self, _t: ckb_network::TargetSession, _d: Bytes) -> Result<(), ckb_network::Error> {
+        Ok(())
+    }
+    async fn async_filter_broadcast_with_proto(&self, _p: ckb_network::ProtocolId, _t: ckb_network::TargetSession, _d: Bytes) -> Result<(), ckb_network::Error> {
+        Ok(())
+    }
+    async fn async_quick_filter_broadcast_with_proto(&self, _p: ckb_network::ProtocolId, _t: ckb_network::TargetSession, _d: Bytes) -> Result<(), ckb_network::Error> {
+        Ok(())
+    }
+    async fn async_disconnect(&self, _peer: ckb_network::PeerIndex, _m: &str) -> Result<(), ckb_network::Error> {
+        Ok(())
+    }
+    fn quick_send_message(&self, p: ckb_network::ProtocolId, peer: ckb_network::PeerIndex, data: Bytes) -> Result<(), ckb_network::Error> {
+        self.send_message(p, peer, data)
+    }
+    fn quick_send_message_to(&self, peer: ckb_network::PeerIndex, data: Bytes) -> Result<(), ckb_network::Error> {
+        self.send_message_to(peer, data)
+    }
+    fn quick_filter_broadcast(&self, _t: ckb_network::TargetSession, _d: Bytes) -> Result<(), ckb_network::Error> {
+        Ok(())
+    }
+    fn quick_filter_broadcast_with_proto(&self, _p: ckb_network::ProtocolId, _t: ckb_network::TargetSession, _d: Bytes) -> Result<(), ckb_network::Error> {
+        Ok(())
+    }
+    fn future_task(&self, _t: Task, _b: bool) -> Result<(), ckb_network::Error> {
+        Ok(())
+    }
+    fn send_message(&self, _p: ckb_network::ProtocolId, peer: ckb_network::PeerIndex, data: Bytes) -> Result<(), ckb_network::Error> {
+        self.sent.lock().unwrap().push((peer, data));
+        Ok(())
+    }
+    fn send_message_to(&self, peer: ckb_network::PeerIndex, data: Bytes) -> Result<(), ckb_network::Error> {
+        self.sent.lock().unwrap().push((peer, data));
+        Ok(())
+    }
+    fn filter_broadcast(&self, _t: ckb_network::TargetSession, _d: Bytes) -> Result<(), ckb_network::Error> {
+        Ok(())
+    }
+    fn disconnect(&self, _peer: ckb_network::PeerIndex, _m: &str) -> Result<(), ckb_network::Error> {
+        Ok(())
+    }
+    fn get_peer(&self, _peer: ckb_network::PeerIndex) -> Option<ckb_network::Peer> {
+        None
+    }
+    fn with_peer_mut(&self, _peer: ckb_network::PeerIndex, _f: Box<dyn FnOnce(&mut ckb_network::Peer)>) {}
+    fn connected_peers(&self) -> Vec<ckb_network::PeerIndex> {
+        vec![1.into(), 2.into()]
+    }
+    fn full_relay_connected_peers(&self) -> Vec<ckb_network::PeerIndex> {
+        vec![1.into(), 2.into()]
+    }
+    fn report_peer(&self, _peer: ckb_network::PeerIndex, _b: ckb_network::Behaviour) {}
+    fn ban_peer(&self, peer: ckb_network::PeerIndex, _d: std::time::Duration, reason: String) {
+        self.banned.lock().unwrap().push((peer, reason));
+    }
+    fn protocol_id(&self) -> ckb_network::ProtocolId {
+        ckb_network::SupportProtocols::RelayV3.protocol_id()
+    }
+}
+
+pub const CB_VARIANTS: [&str; 6] = ["honest{0}", "honest{0,2}", "fewer-ids", "foreign-id", "more-ids", "foreign-prefilled"];
+pub const BT_VARIANTS: [&str; 5] = ["answer-to-request", "all-three", "first-only", "foreign-only", "empty"];
+
+#[derive(Clone, Copy, Debug, PartialEq, Eq, Hash, serde::Serialize, serde::Deserialize)]
+pub enum SMsg {
+    /// compact block of the announced block, variant index into CB_VARIANTS
+    Cb(u8),
+    /// BlockTransactions for the announced block, variant index into BT_VARIANTS
+    Bt(u8),
+}
+
+/// One relay session world: a pool node at tip b2 (b1 proposes t0..t2), a forge that produces a
+/// fresh valid block 3 committing t0..t2 for every history.
+struct SessionWorld {
+    cons: ckb_chain_spec::consensus::Consensus,
+    node: Node,
+    forge: crate::forge::Forge,
+    b2: packed::Byte32,
+    txs: Vec<TransactionView>,
+    foreign: TransactionView,
+    serial: u64,
+}
+
+impl SessionWorld {
+    fn new(ctx: &Ctx) -> Result<SessionWorld, String> {
+        let cons = consensus(&WorldOpts::default());
+        set_time(time_for_height(3) + 12_000);
+        let dir = ctx.scratch.join("session-node");
+        let _ = std::fs::remove_dir_all(&dir);
+        let node = Node::boot(&dir, &NodeOpts::new(cons.clone()).with_pool())?;
+        node.wait_startup()?;
+        let mut forge = crate::forge::Forge::new(&ctx.scratch.join("session-forge"), &cons)?;
+        let cells = genesis_cells(&cons);
+        let txs: Vec<TransactionView> = (0..3).map(|i| simple_tx(&cons, &cells[i..i + 1], 1, 1_000_000 + i as u64, 40 + i as u8)).collect();
+        let foreign = simple_tx(&cons, &cells[4..5], 1, 9_000_000, 98);
+        let b1 = forge.build_on(&cons.genesis_hash(), &crate::forge::BlockSpec { proposals: txs.iter().map(|t| t.proposal_short_id()).collect(), ..Default::default() })?;
+        let b2 = forge.build_on(&b1.hash(), &Default::default())?;
+        for b in [&b1, &b2] {
+            node.process(b).map_err(|e| format!("session world: block refused: {e}"))?;
+        }
+        node.wait_pool_synced()?;
+        Ok(SessionWorld { cons, node, forge, b2: b2.hash(), txs, foreign, serial: ctx.shard as u64 * 1_000_000 })
+    }
+
+    /// tip back to b2, pool = exactly `pool_set`
+    fn reset(&mut self, pool_set: &[usize]) -> Result<(), String> {
+        // the pool first finishes whatever tip change the last history caused
+        self.node.wait_pool_synced()?;
+        if self.node.tip().hash() != self.b2 {
+            self.node.chain().truncate(self.b2.clone()).map_err(|e| format!("truncate: {e}"))?;
+        }
+        // (truncate does not notify the pool: clear_pool hands it the new snapshot)
+        let snap = Arc::clone(&self.node.shared.snapshot());
+        self.node.shared.tx_pool_controller().clear_pool(snap).map_err(|e| e.to_string())?;
+        self.node.wait_pool_synced()?;
+        for i in pool_set {
+            self.node.submit_tx(&self.txs[*i]).map_err(|e| format!("submit t{i}: {e}"))?;
+        }
+        Ok(())
+    }
+
+    fn fresh_block(&mut self) -> Result<BlockView, String> {
+        self.serial += 1;
+        let spec = crate::forge::BlockSpec { txs: self.txs.clone(), ts_offset: self.serial % 10_000, miner: (self.serial / 10_000 % 250) as u8, ..Default::default() };
+        let b = self.forge.build_on(&self.b2.clone(), &spec)?;
+        self.forge.known.remove(&b.hash());
+        Ok(b)
+    }
+}
+
+fn compact_variant(block: &BlockView, foreign: &TransactionView, v: u8) -> packed::CompactBlock {
+    let pre = |set: &[usize]| -> HashSet<usize> { set.iter().cloned().collect() };
+    match v {
+        0 => packed::CompactBlock::build_from_block(block, &pre(&[])),
+        1 => packed::CompactBlock::build_from_block(block, &pre(&[2])),
+        2 => {
+            // same header, only the first short id
+            let cb = packed::CompactBlock::build_from_block(block, &pre(&[]));
+            let ids: Vec<packed::ProposalShortId> = cb.short_ids().into_iter().take(1).collect();
+            cb.as_builder().short_ids(ids.pack()).build()
+        }
+        3 => {
+            let cb = packed::CompactBlock::build_from_block(block, &pre(&[]));
+            let mut ids: Vec<packed::ProposalShortId> = cb.short_ids().into_iter().collect();
+            ids[0] = foreign.proposal_short_id();
+            cb.as_builder().short_ids(ids.pack()).build()
+        }
+        4 => {
+            let cb = packed::CompactBlock::build_from_block(block, &pre(&[]));
+            let mut ids: Vec<packed::ProposalShortId> = cb.short_ids().into_iter().collect();
+            ids.push(foreign.proposal_short_id());
+            cb.as_builder().short_ids(ids.pack()).build()
+        }
+        _ => {
+            // position 1 prefilled with a foreign transaction, short ids of positions 2 and 3
+            let cb = packed::CompactBlock::build_from_block(block, &pre(&[1]));
+            let mut pf: Vec<packed::IndexTransaction> = cb.prefilled_transactions().into_iter().collect();
+            pf[1] = pf[1].clone().as_builder().transaction(foreign.data()).build();
+            cb.as_builder().prefilled_transactions(pf.pack()).build()
+        }
+    }
+}
+
+fn relay_bytes(item: impl Into<packed::RelayMessageUnion>) -> Bytes {
+    packed::RelayMessage::new_builder().set(item).build().as_bytes()
+}
+
+/// indexes of the last GetBlockTransactions for `hash` sent to `peer`
+fn last_request(nc: &MockNc, peer: ckb_network::PeerIndex, hash: &packed::Byte32) -> Option<Vec<u32>> {
+    let sent = nc.sent.lock().unwrap();
+    sent.iter().rev().find_map(|(p, data)| {
+        if *p != peer {
+            return None;
+        }
+        let msg = packed::RelayMessageReader::from_compatible_slice(data).ok()?;
+        match msg.to_enum() {
+            packed::RelayMessageUnionReader::GetBlockTransactions(r) if r.block_hash().to_entity() == *hash => Some(r.indexes().iter().map(|i| i.into()).collect()),
+            _ => None,
+        }
+    })
+}
+
+fn run_session(w: &mut SessionWorld, pool_set: &[usize], hist: &[(u8, SMsg)], report: &mut Report) -> Result<(), String> {
+    use ckb_network::CKBProtocolHandler;
+    w.reset(pool_set)?;
+    let block = w.fresh_block()?;
+    let hash = block.hash();
+    let (_tx, rx) = ckb_channel::bounded(1);
+    let sync_shared = Arc::new(SyncShared::new(w.node.shared.clone(), Default::default(), rx));
+    let mut relayer = Relayer::new(w.node.chain().clone(), Arc::clone(&sync_shared));
+    let nc = Arc::new(MockNc { sent: Default::default(), banned: Default::default() });
+    let handle = w.node.shared.async_handle().clone();
+    let label = json!({"family": "session", "pool": pool_set, "history": hist});
+    let names: Vec<String> = hist.iter().map(|(p, m)| match m { SMsg::Cb(v) => format!("peer{p}:CompactBlock[{}]", CB_VARIANTS[*v as usize]), SMsg::Bt(v) => format!("peer{p}:BlockTransactions[{}]", BT_VARIANTS[*v as usize]) }).collect();
+    let mut honest_cb_from: HashSet<u8> = HashSet::new();
+    let mut honest_answered: HashSet<u8> = HashSet::new();
+    for (step, (p, m)) in hist.iter().enumerate() {
+        let peer: ckb_network::PeerIndex = (*p as usize).into();
+        let sent_before = nc.sent.lock().unwrap().len();
+        let data = match m {
+            SMsg::Cb(v) => relay_bytes(compact_variant(&block, &w.foreign, *v)),
+            SMsg::Bt(v) => {
+                let all = block.transactions();
+                let picked: Vec<TransactionView> = match v {
+                    0 => last_request(&nc, peer, &hash).unwrap_or_else(|| vec![1, 2, 3]).iter().filter_map(|i| all.get(*i as usize).cloned()).collect(),
+                    1 => all[1..].to_vec(),
+                    2 => vec![all[1].clone()],
+                    3 => vec![w.foreign.clone()],
+                    _ => vec![],
+                };
+                relay_bytes(packed::BlockTransactions::new_builder().block_hash(hash.clone()).transactions(picked.iter().map(|t| t.data()).collect::<Vec<_>>().pack()).build())
+            }
+        };
+        let nc2: Arc<dyn ckb_network::CKBProtocolContext + Sync> = nc.clone();
+        let res = std::panic::catch_unwind(std::panic::AssertUnwindSafe(|| handle.block_on(relayer.received(nc2, peer, data))));
+        report.transitions += 1;
+        report.evaluations += 1;
+        if res.is_err() {
+            report.violation("session/handler-panic", format!("Relayer::received panicked at step {step} of [{}] (pool holds t{:?})", names.join(", "), pool_set), label.clone());
+            // the relayer may hold poisoned state: this history ends here
+            break;
+        }
+        // the request for missing transactions of a compact block is sent from a spawned task:
+        // wait until the request matching the recorded expectation is out
+        let t0 = std::time::Instant::now();
+        loop {
+            let expected: Option<Vec<u32>> = handle.block_on(async { sync_shared.state().pending_compact_blocks().await.get(&hash).and_then(|e| e.1.get(&peer).map(|x| x.0.clone())) });
+            match expected {
+                None => break,
+                Some(e) if last_request(&nc, peer, &hash).as_ref() == Some(&e) => break,
+                Some(e) => {
+                    if t0.elapsed() > std::time::Duration::from_secs(10) {
+                        return Err(format!("the request {e:?} recorded for peer {p} was never sent ([{}])", names.join(", ")));
+                    }
+                    std::thread::sleep(std::time::Duration::from_micros(50));
+                }
+            }
+        }
+        // whatever reached the chain service has been dealt with
+        w.node.service_barrier()?;
+        w.node.verify_barrier()?;
+        // a precise request: an honest compact block asks exactly for the positions that are not in the pool
+        if let SMsg::Cb(v) = m {
+            if *v <= 1 {
+                honest_cb_from.insert(*p);
+                if nc.sent.lock().unwrap().len() > sent_before {
+                    if let Some(req) = last_request(&nc, peer, &hash) {
+                        let pre: Vec<u32> = if *v == 0 { vec![0] } else { vec![0, 2] };
+                        let want: Vec<u32> = (1..=3u32).filter(|pos| !pre.contains(pos) && !pool_set.contains(&((*pos - 1) as usize))).collect();
+                        if req != want {
+                            report.violation("session/imprecise-request", format!("[{}]: peer {p} was asked for positions {req:?}, unavailable are {want:?}", names.join(", ")), label.clone());
+                        }
+                    }
+                }
+            }
+        }
+        if let SMsg::Bt(0) = m {
+            if honest_cb_from.contains(p) {
+                honest_answered.insert(*p);
+            }
+        }
+        // never a different block under the announced hash; the valid block is never marked invalid
+        {
+            use ckb_store::ChainStore;
+            let store = w.node.shared.store();
+            if let Some(b) = store.get_block(&hash) {
+                if b.data().as_slice() != block.data().as_slice() {
+                    report.violation("session/different-block-stored", format!("[{}]: the block stored under the announced hash is not the announced block", names.join(", ")), label.clone());
+                }
+            }
+            let tip = w.node.tip().hash();
+            if tip != w.b2 && tip != hash {
+                report.violation("session/unexpected-tip", format!("[{}]: tip {tip} is neither the parent nor the announced block", names.join(", ")), label.clone());
+            }
+            let st = w.node.shared.get_block_status(&hash);
+            if st.contains(ckb_shared::block_status::BlockStatus::BLOCK_INVALID) {
+                report.violation("session/valid-block-marked-invalid", format!("[{}]: the announced block (valid by construction) is marked invalid", names.join(", ")), label.clone());
+            }
+        }
+    }
+    let accepted = w.node.tip().hash() == hash;
+    if accepted {
+        report.nontrivial.insert(fp(&(pool_set, hist)));
+        report.count("session_block_accepted", 1);
+    }
+    let honest_banned = nc.banned.lock().unwrap().iter().filter(|(p, _)| { let n = p.value(); honest_answered.contains(&(n as u8)) }).count();
+    if honest_banned > 0 {
+        report.count("session_histories_banning_a_peer_that_sent_the_true_block_and_answered_the_request", 1);
+    }
+    if !honest_answered.is_empty() && !accepted {
+        report.count("session_histories_where_an_honest_delivery_did_not_complete", 1);
+    }
+    // the node was not poisoned: delivered directly, the announced block is still accepted
+    if !accepted {
+        match w.node.process(&block) {
+            Ok(_) => {}
+            Err(e) => report.violation("session/valid-block-refused-afterwards", format!("[{}]: the announced block delivered directly afterwards is refused: {e}", names.join(", ")), label.clone()),
+        }
+    }
+    report.states.insert(fp(&("session", pool_set, hist)));
+    report.outcomes.insert(100 + accepted as u64 + 2 * (nc.banned.lock().unwrap().len().min(3) as u64));
+    report.traces += 1;
+    drop(relayer);
+    drop(sync_shared);
+    Ok(())
+}
+
+fn session_family(ctx: &Ctx, report: &mut Report, only: Option<&Value>) -> Result<(), String> {
+    let mut w = SessionWorld::new(ctx)?;
+    if let Some(v) = only {
+        let pool_set: Vec<usize> = serde_json::from_value(v["pool"].clone()).map_err(|e| e.to_string())?;
+        let hist: Vec<(u8, SMsg)> = serde_json::from_value(v["history"].clone()).map_err(|e| e.to_string())?;
+        run_session(&mut w, &pool_set, &hist, report)?;
+        w.node.shutdown();
+        return Ok(());
+    }
+    let mut ops: Vec<(u8, SMsg)> = vec![];
+    for p in [1u8, 2] {
+        for v in 0..CB_VARIANTS.len() as u8 {
+            ops.push((p, SMsg::Cb(v)));
+        }
+        for v in 0..BT_VARIANTS.len() as u8 {
+            ops.push((p, SMsg::Bt(v)));
+        }
+    }
+    // (pool contents, depth); peer symmetry: the first message comes from peer 1
+    let configs: Vec<(Vec<usize>, usize)> = if ctx.tier.is_thorough() { vec![(vec![], 4), (vec![0], 4), (vec![0, 1, 2], 3)] } else { vec![(vec![], 3), (vec![0], 3)] };
+    let mut idx = 0u64;
+    for (pool_set, depth) in &configs {
+        let mut level: Vec<Vec<(u8, SMsg)>> = ops.iter().filter(|(p, _)| *p == 1).map(|o| vec![*o]).collect();
+        for d in 1..=*depth {
+            for h in &level {
+                idx += 1;
+                if !ctx.mine(idx) {
+                    continue;
+                }
+                if ctx.out_of_time() {
+                    report.cap_hit = Some(format!("session family: wall budget at depth {d} (pool {pool_set:?})"));
+                    w.node.shutdown();
+                    return Ok(());
+                }
+                run_session(&mut w, pool_set, h, report)?;
+            }
+            report.max_counter(&format!("max_session_depth_completed_pool{}", pool_set.len()), d as u64);
+            if d < *depth {
+                level = level.iter().flat_map(|h| ops.iter().map(move |o| { let mut n = h.clone(); n.push(*o); n })).collect();
+            }
+        }
+    }
+    report.sample(json!({"family": "session", "ops": ops.len(), "configs": configs.iter().map(|(p, d)| json!({"pool": p, "depth": d})).collect::<Vec<_>>()}));
+    w.node.shutdown();
+    Ok(())
+}
+
 pub fn meta(tier: Tier) -> Meta {
     Meta {
         id: "C16",
@@ -768,12 +1159,20 @@ pub fn run(ctx: &Ctx) -> Report {
     }
     let v: Option<Value> = ctx.replay.as_ref().map(|p| load_replay_case(p));
     let fam = v.as_ref().and_then(|v| v["family"].as_str().map(|s| s.to_string()));
-    if fam.is_none() || fam.as_deref() == Some("decode") || fam.as_deref() == Some("decompress") {
+    // the decode sweep (rayon, all cores) and the reconstruction families run in the first worker;
+    // the session family is split over all workers
+    let first = ctx.shards == 1 || ctx.shard == 0;
+    if first && (fam.is_none() || fam.as_deref() == Some("decode") || fam.as_deref() == Some("decompress")) {
         decode_family(ctx, &mut report);
     }
-    if fam.is_none() || fam.as_deref() == Some("reconstruct") {
+    if first && (fam.is_none() || matches!(fam.as_deref(), Some("reconstruct") | Some("structure") | Some("uncles") | Some("uncles-mixed"))) {
         if let Err(e) = reconstruct_family(ctx, &mut report) {
             report.machinery_errors.push(format!("reconstruction family: {e}"));
+        }
+    }
+    if fam.is_none() || fam.as_deref() == Some("session") {
+        if let Err(e) = session_family(ctx, &mut report, v.as_ref().filter(|_| fam.is_some())) {
+            report.machinery_errors.push(format!("session family: {e}"));
         }
     }
     let _ = std::panic::take_hook();
